@@ -102,7 +102,11 @@ def random_table(rng, nstates=None, nevents=None, nrows=None, allow_guard_mix=Tr
         for pool in (states, actions, guards, events):
             if rng.random() < 0.6:
                 b = rng.choice(pool)
-                sib = b[:-1] + rng.choice("tn") + b[-1:]
+                if rng.random() < 0.5:
+                    sib = b[:-1] + rng.choice("tn") + b[-1:]
+                else:                       # or only in the capitalisation of one inner letter (Standby / StandBy)
+                    k_ = rng.randrange(1, len(b))
+                    sib = b[:k_] + b[k_].swapcase() + b[k_ + 1:]
                 if sib not in pool:
                     pool.append(sib)
     rows = []
